@@ -14,7 +14,7 @@ def enc_text(s: str, enc: str) -> bytes:
         return s.encode("latin_1", "replace")
 
 
-CURATED_CHARS = "0159-+ _aZ.*"
+CURATED_CHARS = "0159-+ _aZ.*%"
 CURATED_RAW = [0x00, 0xFF, 0x40, 0xF0, 0xF9, 0x60, 0x4E, 0xB2, 0x30, 0x39, 0x2D, 0x20, 0x80, 0x0A]
 
 
@@ -107,6 +107,21 @@ def pds_tag_faults(spans, enc):
                 bs = enc_text(tok, enc)
                 if len(bs) == 4:
                     yield [rep(a, 4, bs, "pds_tag_token")]
+
+
+PDS_HEADER_TOKENS = ["0%580A3", "%s%s-01", "%d  abc", "{0} 0x1", "0001-07", "\\n\\t 00a", "%(x)s999"]
+
+
+def pds_header_faults(spans, enc):
+    """a PDS header (tag + sub-length, 7 characters) rewritten as a whole: text that is special to string
+    formatting / templating together with a sub-length that cannot be read (ends up inside error messages)"""
+    for el in spans["elems"]:
+        for s_ in (el.get("pds") or [])[:3]:
+            a = s_["tag"][0]
+            for tok in PDS_HEADER_TOKENS:
+                bs = enc_text(tok, enc)
+                if len(bs) == 7:
+                    yield [rep(a, 7, bs, "pds_header_token")]
 
 
 def numeral_faults(spans, enc):
